@@ -179,6 +179,8 @@ func vAgentGen(o *vOut, r *vRand, thorough bool, args []string, emit func(string
 			singles = 2
 		}
 		switch {
+		case focus == "C20" && g.r.chance(1, 4):
+			g.renomExchange()
 		case ((focus == "C03" || focus == "C06" || focus == "C20" || focus == "C07") && g.r.chance(1, 6)) || (focus == "" && g.r.chance(1, 30)):
 			g.prflxSelSupersede()
 		case (focus == "C20" && g.r.chance(1, 4)) || (focus == "" && g.r.chance(1, 25)) || (focus == "C06" && g.r.chance(1, 10)):
@@ -868,4 +870,85 @@ func (g *vGenSess) renomPrflx() {
 		}
 		g.op("adv 100")
 	}
+	g.op("mark quiesced")
+}
+
+// renomExchange: the two-agent renomination exchange of C20, sentence 2.  No forged traffic, roles fixed: A (one
+// local, optionally behind a NAT) renominates among B's two locals with mostly increasing values, starting at any time
+// after both agents were started (also before anything is selected), while requests and responses are reordered,
+// duplicated and now and then dropped; then everything is delivered.  The monitor's quiescent-agreement clause is
+// evaluated at the mark.
+func (g *vGenSess) renomExchange() {
+	r := g.r
+	g.hasB = true
+	g.o.stat("sess.renomexchange")
+	g.op("new renom=1,tb=9,u=uA0,p=pA0%s tb=5,u=uB0,p=pB0%s", []string{"", ",ka=0"}[r.intn(2)], []string{"", ",ucp=1", ",pw=0"}[r.intn(3)])
+	x, y1, y2 := 16, 176, 192
+	nat := r.chance(1, 3)
+	if nat {
+		g.op("nat %d %d", x, 336)
+		g.o.stat("topo.nat")
+	}
+	p1, p2 := 2130706431, []int{2130706175, 100, 2130706431}[r.intn(3)]
+	g.op("addlocal A 1 0 %d 2130706431 -", x)
+	g.op("addlocal B 1 0 %d %d -", y1, p1)
+	g.op("addlocal B 1 0 %d %d -", y2, p2)
+	g.op("addremote A 1 0 %d %d -", y1, p1)
+	g.op("addremote A 1 0 %d %d -", y2, p2)
+	if nat {
+		g.op("addremote B 2 0 336 1694498815 %d", x)
+	} else {
+		g.op("addremote B 1 0 %d 2130706431 -", x)
+	}
+	g.op("start A 1 uB0 pB0")
+	g.op("start B 0 uA0 pA0")
+	for i := r.intn(4); i > 0; i-- {
+		for g.inflight > 0 {
+			g.op("deliver 0")
+			g.inflight--
+		}
+		g.op("adv %d", []int{50, 100, 200}[r.intn(3)])
+	}
+	v := 1 + r.intn(3)
+	for i := 0; i < 14+r.intn(24); i++ {
+		switch c := r.intn(30); {
+		case c < 7:
+			g.op("renom A %d %d %d", x, r.intn(2), v)
+			if r.chance(3, 4) {
+				v += 1 + r.intn(2)
+			} else if v > 1 && r.chance(1, 2) {
+				v--
+			}
+		case c < 21:
+			if g.inflight > 0 {
+				g.op("deliver %d", r.intn(g.inflight))
+				g.inflight--
+			} else {
+				g.op("adv %d", []int{10, 50}[r.intn(2)])
+			}
+		case c < 24:
+			if g.inflight > 0 {
+				g.op("dup %d", r.intn(g.inflight))
+			}
+		case c < 25:
+			if g.inflight > 0 {
+				g.op("drop %d", r.intn(g.inflight))
+				g.inflight--
+			}
+		default:
+			g.op("adv %d", []int{10, 50, 200}[r.intn(3)])
+		}
+	}
+	for i := 0; i < 6+r.intn(4); i++ {
+		for g.inflight > 0 {
+			g.op("deliver 0")
+			g.inflight--
+		}
+		g.op("adv %d", []int{100, 200}[r.intn(2)])
+	}
+	for g.inflight > 0 {
+		g.op("deliver 0")
+		g.inflight--
+	}
+	g.op("mark quiesced")
 }
